@@ -15,6 +15,12 @@ function mkd(int i) -> D { D t = new D(i); return t; }
 class W { public N inner = new N(7); public int k = 1; public constructor() -> W = default; }
 class Q { public qubit q; public int tag = 4; public constructor() -> Q = default; }
 class T { @tracked public qubit q; public constructor() -> T = default; }
+class QC { public qubit q; public N tag; public constructor(int i) -> QC { this.tag = new N(i); } public function id() -> int { return this.tag.id; } }
+class TC { @tracked public qubit q; public N tag; public N tag2; public constructor(int i) -> TC { this.tag = new N(i); this.tag2 = new N(i + 1); this.tag.next = this.tag2; } public function id() -> int { return this.tag.id * 10 + this.tag.next.id; } }
+class J { public int k = 0; public constructor() -> J = default; public destructor() -> void { this.k = 1; this.k = 2; } }
+function mkqc(int i) -> QC { J j = new J(); return new QC(i); }
+function mktc(int i) -> TC { J j = new J(); return new TC(i); }
+function qsum(QC a, QC b) -> int { return a.id() * 10 + b.id(); }
 static class S { public static N keep = null; public static int n = 0; }
 function mk(int i) -> N { return new N(i); }
 function mkr(int i) -> R { return new R(i); }
@@ -51,6 +57,11 @@ BODIES = {
     "destructor-overwrite": ["D d = new D(1);", "d = new D(2);", "echo(\"mid\");", "d = new D(3);", "echo(burst(2));"],
     "qubit-object": ["Q q = new Q();", "h(q.q);", "echo(burst(2));", "echo(q.tag);", "measure q.q;"],
     "tracked-object": ["T t = new T();", "x(t.q);", "measure t.q;", "echo(burst(2));", "t = null;", "echo(burst(1));"],
+    # objects that own qubits (the collector never sweeps those) with plain children, held only by evaluation temporaries while
+    # another statement boundary passes (the local J's destructor body runs during the callee's frame teardown)
+    "qubit-temp-child": ["echo(mkqc(3).id());", "echo(mkqc(4).tag.id + burst(2));"],
+    "qubit-temp-child-args": ["echo(qsum(mkqc(1), mkqc(2)));", "echo(qsum(new QC(3), mkqc(4)));"],
+    "tracked-temp-child": ["echo(mktc(5).id());", "echo(mktc(6).tag.next.id + burst(1));"],
     "pressure": ["echo(burst(18));", "N k = new N(9);", "echo(burst(18));", "echo(k.id);"],
     "pressure-args": ["echo(link(mk(burst(18)), mk(burst(18))));"],
     "list": ["N h = chain(5);", "echo(len(h));", "echo(burst(2));", "echo(len(h));", "h.next.next = null;", "echo(burst(2));", "echo(len(h));"],
